@@ -387,7 +387,13 @@ func gen(seed uint64, tier string) {
 			if k > 0 {
 				sb.WriteString(" ;;")
 			}
-			fmt.Fprintf(&sb, " %s | %s", vproto.GeomToks(l), vproto.GeomToks(P.ToGeom(2, closed)))
+			// every third history changes the coordinate scale between its calls (the same object is tiny in one call and
+			// of ordinary size in the next): nothing derived from an operand may be remembered across calls
+			f := 1.0
+			if h%3 == 2 {
+				f = math.Ldexp(1, []int{0, -30, -40, -60, 0, -400}[r.Intn(6)])
+			}
+			fmt.Fprintf(&sb, " %s | %s", vproto.GeomToks(shapes.ScaleGeom(l, f)), vproto.GeomToks(shapes.ScaleGeom(P.ToGeom(2, closed), f)))
 		}
 		fmt.Fprintln(out, sb.String())
 	}
@@ -416,6 +422,7 @@ func gen(seed uint64, tier string) {
 	quadrantCorpus(emit)
 	quadrantCases(r, n/15, emit)
 	holeBoxCases(r, n/25, emit)
+	farMemberCases(r, n/40, emit)
 }
 
 // scaleFor picks the coordinate scale of a case: mostly 1, otherwise a power of two.
